@@ -266,7 +266,7 @@ def flatten(model, prefix=""):
         if e.get("tpl"):
             e2["_op"] = model["edge_ops"][e["tpl"]]
         if e.get("post"):
-            e2["post"] = {k_: prefix + v_ for k_, v_ in e["post"].items()}
+            e2["post"] = {k_: (v_ if v_ == "source" else prefix + v_) for k_, v_ in e["post"].items()}
         edges.append(e2)
     for lab, sub in model.get("circuits", {}).items():
         n2, e2 = flatten(sub, prefix + lab + "/")
@@ -383,7 +383,7 @@ def spec_rhs(model, y, params=None, hist=None, t=0.0, edge_now=None, ext=None):
                             eop = d["_op"]
                             sv = edge_now(src, d, val_of) if edge_now is not None else val_of(src)
                             post = d.get("post") or {}     # inputs of a coupling edge that read a variable of the TARGET unit
-                            eenv = {v_: ((val_of(post[v_]) if v_ in post else sv) if vt_ == "input" else (d.get("eover") or {}).get(v_, dflt))
+                            eenv = {v_: ((val_of(post[v_]) if post.get(v_, "source") != "source" else sv) if vt_ == "input" else (d.get("eover") or {}).get(v_, dflt))
                                     for v_, (vt_, dflt) in eop["vars"].items()}
                             outv = None
                             for l_, k_, tr_ in eop["eqs"]:
